@@ -10,7 +10,7 @@ pub fn meta() -> Meta {
         level: "model_checking",
         rule: "every history of depth d (quick 4, thorough 5) over 13 actions on three handle registers (5 kind-specific operations, clone, 2 drops, gc, add_vars+new variable, reverse/rotate reordering, drop on another thread) for bdd, bcdd, zbdd, mtbdd, tdd on a fresh manager per history, with an ample (64) and a tight (12-node, operations may fail with OutOfMemory) node store; after every step the structural auditor runs over Manager::levels()/get_node (children strictly below, listed level = reported level, kind's reduction rule, then-edge uncomplemented, no duplicate (level, children), var/level maps inverse permutations, num_inner_nodes = listed nodes) and node_count(handle) must equal the size of the unique reduced diagram computed from the model table under the current order.  Additionally, per kind {bdd,bcdd,zbdd} and each of the 6 orders of 3 variables: the whole operation alphabet (not, cofactors, 8 connectives, ite, restrict/pick_cube_dd_set for all 27 cubes, pick_cube_dd, quantifiers, apply-and-quantify, substitution; ZBDD: subset0/1, change, union, intsec, diff) on all 256 functions: node_count of every result = size of the unique reduced diagram of the table it denotes, and after every batch of operations (before any collection) the auditor accepts everything stored. Also: every single adjacent swap through the public `level_down` (n = 4, every level, dense and sparse live sets incl. single variables) and the concurrent reordering of sparse live sets (C08's `leveldown4` / `csparse4` cases) followed by the same auditor. states = distinct model states, transitions = audited steps.",
         assumptions: vec![
-            "DDDMP import as a history step is exercised by C15's audit after import, add_named_vars by C16".into(),
+            "DDDMP import as a history step is exercised by C15's audit after import (its enumeration of all binary node records is also run here), add_named_vars by C16".into(),
             "index backend (pointer backend: C20)".into(),
         ],
         hang_is_violation: false,
@@ -29,6 +29,10 @@ pub fn shards(tier: &str) -> Vec<String> {
             v.push(format!("reord:{s}"));
         }
     }
+    // structure after importing every possible binary node record (C15's enumeration, same auditor)
+    for k in 0..8 {
+        v.push(format!("imp:x:binrec:{k}"));
+    }
     v.extend(hist::shards_for(&["mtbddf", "mtbddc", "zbdds"], &["n64c16t1"], if tier == "thorough" { 2 } else { 1 }));
     if tier == "thorough" {
         v.extend(hist::shards_for(&KINDS, &["n64c16t1", "n12c16t1", "n64c1t2"], 2));
@@ -39,6 +43,10 @@ pub fn shards(tier: &str) -> Vec<String> {
 }
 
 pub fn run(ctx: &mut Ctx) {
+    if let Some(rest) = ctx.shard.clone().strip_prefix("imp:") {
+        ctx.shard = rest.to_string();
+        return super::c15x::run_extra(ctx);
+    }
     if let Some(rest) = ctx.shard.clone().strip_prefix("reord:") {
         ctx.shard = rest.to_string();
         return super::c08::run(ctx);
